@@ -17,6 +17,7 @@ git -C $wt apply $seed/patch.diff || { echo "PATCH-DOES-NOT-APPLY"; exit 3; }
 rm $wt/jsonschema/zz_seed_demo_test.go
 (cd $wt && go test -vet=off -count=1 ./... >/tmp/seed_suite.log 2>&1); suite=$?
 echo "demo-without-patch=$nop (want 0) demo-with-patch=$wp (want !=0) suite-with-patch=$suite (want 0)"
+mkdir -p $wt/_verif; cp /verif/known_findings.txt $wt/_verif/ 2>/dev/null
 for p in "$@"; do
   out=$(/verif/bin/jscheck -prop $p -tier quick -repo $wt -verif $wt/_verif 2>&1); code=$?
   echo "check $p exit=$code"
